@@ -33,7 +33,10 @@ def shards(tier, seed, scale=1.0):
     if tier == 'quick':
         budget, nlen, S, hyp_n = 3, 4, 24, 250
     else:
-        budget, nlen, S, hyp_n = 4, 5, 128, 4000
+        # every AST of budget 4 (353 k patterns) on all names up to length 4, and budget 3 on all names up to length 5
+        budget, nlen, S, hyp_n = 4, 4, 256, 4000
+        for s in range(32):
+            out.append({'name': 'enum3x5-%d' % s, 'kind': 'enum', 'shard': s, 'of': 32, 'budget': 3, 'nlen': 5})
     for s in range(S):
         out.append({'name': 'enum-%d' % s, 'kind': 'enum', 'shard': s, 'of': S, 'budget': budget, 'nlen': nlen})
     for s in range(16):
